@@ -116,7 +116,7 @@ def strip_comments(txt):
     return ''.join(out)
 
 
-def proof_step(pid, rundir):
+def proof_step(pid, rundir, tier='quick'):
     """Returns dict(obligations, discharged, failures[list of str], theorems, axioms)"""
     obl = json.load(open(COQ + '/OBLIGATIONS.json')).get(pid, {})
     thms = obl.get('theorems', [])
@@ -162,6 +162,17 @@ def proof_step(pid, rundir):
                 res['discharged'] += 1
             else:
                 res['failures'].append('theorem %s depends on axioms %s' % (t, names))
+    if tier == 'thorough' and not res['failures']:
+        # independent re-check of the compiled proofs (and everything they depend on) with coqchk
+        try:
+            rc, out = sh('timeout 1500 coqchk -o -silent -Q %s BedV BedV.Props.%s' % (COQ, pid), cwd=rundir, timeout=1600)
+        except subprocess.TimeoutExpired:
+            rc, out = 1, 'coqchk timed out'
+        m = re.search(r'\* Axioms:\s*(.*?)(?:\n\s*\*|\Z)', out, re.S)
+        ax = m.group(1).strip() if m else '?'
+        res['coqchk'] = 'rc=%d axioms=%s' % (rc, ax[:200])
+        if rc != 0 or (ax not in ('<none>', '')):
+            res['failures'].append('coqchk: ' + res['coqchk'] + ' ' + out[-500:])
     return res
 
 
@@ -348,7 +359,7 @@ def _main(prop, pid, tier, seed, replay, rundir, t0):
     known_lines = []
     notes = []
     # 1. proof step
-    pr = proof_step(pid, rundir)
+    pr = proof_step(pid, rundir, tier)
     if pr['failures']:
         path = write_replay(pid, 'proof', dict(property=pid, kind='proof-obligation', tier=tier,
                             no_longer_checks=pr['failures'], theorems=pr['theorems']))
@@ -402,8 +413,14 @@ def _main(prop, pid, tier, seed, replay, rundir, t0):
     attempts = 0
     for i in mism:
         c = cases[i]
+        if hasattr(prop, 'classify'):
+            f0 = prop.classify(c.text, impl[i], model[i])
+            hit0 = [txt for (cre, txt) in kf if re.fullmatch(cre, f0 or '')]
+            if hit0:
+                known_lines.append('KNOWN-FINDING: property=%s %s' % (pid, hit0[0]))
+                continue
         if reported >= 3 or attempts >= 12:
-            break
+            continue
         attempts += 1
         def still(t):
             a = run_side(HARNESS, [t], shards=1)[0]
@@ -465,7 +482,7 @@ def finish(prop, pid, tier, seed, t0, pr, cases, mism, violations, known_lines, 
                 'extraction to OCaml with ExtrOcamlBasic only (Extract Inductive bool/option/unit/list/prod/sumbool/sumor); no Extract Constant; OCaml 4.13.1',
                 'hand-written glue: extract/sexp.ml, extract/driver.ml, harness/src/*.rs, lib/*.py (case generation, canonical forms, comparison)',
                 'all of bed-utils is modelled (hand-written Gallina), tied to /repo by the differential correspondence run on every check'],
-            theorems=pr['theorems'], axioms_reported=pr['axioms'],
+            theorems=pr['theorems'], axioms_reported=pr['axioms'], coqchk=pr.get('coqchk', 'not run (thorough tier only)'),
             evaluations=len(cases), distinct_nontrivial=nontriv,
             rule=getattr(prop, 'RULE', ''), samples=samples,
             traces_validated_against_impl=len(cases), disagreements_checked=len(mism),
